@@ -48,19 +48,29 @@ def find_lazy_caches(ctx):
 
 
 def _is_none_test(test, selfn):
+    """field name F when the test is the cache-miss test of a lazily filled field:
+         self.F is None            (single cached value)
+         key not in self.F         (per-instance memo dict)"""
     if isinstance(test, ast.Compare) and len(test.ops) == 1 and isinstance(test.ops[0], ast.Is) \
             and isinstance(test.comparators[0], ast.Constant) and test.comparators[0].value is None \
             and isinstance(test.left, ast.Attribute) and isinstance(test.left.value, ast.Name) \
             and test.left.value.id == selfn:
         return test.left.attr
+    if isinstance(test, ast.Compare) and len(test.ops) == 1 and isinstance(test.ops[0], ast.NotIn):
+        c = test.comparators[0]
+        if isinstance(c, ast.Attribute) and isinstance(c.value, ast.Name) and c.value.id == selfn:
+            return c.attr
     return None
 
 
 def _stores_field(n, selfn, f):
     if isinstance(n, (ast.Assign, ast.AugAssign)):
         tgts = n.targets if isinstance(n, ast.Assign) else [n.target]
-        return any(isinstance(t, ast.Attribute) and t.attr == f and isinstance(t.value, ast.Name)
-                   and t.value.id == selfn for t in tgts)
+        for t in tgts:
+            if isinstance(t, ast.Subscript):        # memo dict entry  self.F[key] = value
+                t = t.value
+            if isinstance(t, ast.Attribute) and t.attr == f and isinstance(t.value, ast.Name) and t.value.id == selfn:
+                return True
     return False
 
 
@@ -220,10 +230,18 @@ class CacheCoherence:
                 for t in node.targets:
                     if isinstance(t, ast.Attribute) and t.attr == self.Fsrc and isinstance(t.value, ast.Name) \
                             and t.value.id == selfn:
-                        if isinstance(node.value, ast.Constant) and node.value.value is None:
-                            states = {(N, False)}
-                        else:
-                            states = {(Mb, False)}
+                        v = node.value
+                        empty = (isinstance(v, ast.Constant) and v.value is None) or (isinstance(v, ast.Dict) and not v.keys) \
+                            or (isinstance(v, ast.Call) and isinstance(v.func, ast.Name) and v.func.id == "dict" and not v.args)
+                        states = {(N, False)} if empty else {(Mb, False)}
+                    if isinstance(t, ast.Subscript) and isinstance(t.value, ast.Attribute) and t.value.attr == self.Fsrc \
+                            and isinstance(t.value.value, ast.Name) and t.value.value.id == selfn:
+                        states = {(Mb, False)}
+                continue
+            if isinstance(node, ast.Call) and isinstance(node.func, ast.Attribute) and node.func.attr == "clear" \
+                    and isinstance(node.func.value, ast.Attribute) and node.func.value.attr == self.Fsrc \
+                    and isinstance(node.func.value.value, ast.Name) and node.func.value.value.id == selfn:
+                states = {(N, False)}
                 continue
             ev = self.node_events(fn, node)
             if ev is None:
